@@ -61,7 +61,8 @@ def showDL (d : DiscreteLookup) : String := par ["dl", par (d.criteria.map showC
 def showRatF (q : Rat) : String := showVal (.flt (.fin q))
 
 def showCalibrator : Calibrator → String
-  | .poly ts => par (["poly"] ++ ts.map (fun t => par [showRatF t.coef, toString t.exp]))
+  | .poly ts => par (["poly"] ++ ts.map (fun t =>
+      par [(if t.isInt && t.coef.den == 1 then s!"i{t.coef.num}" else showRatF t.coef), toString t.exp]))
   | .spline s => par (["spline", toString s.order, B s.extrapolate] ++ s.points.map (fun p => par [showRatF p.raw, showRatF p.cal]))
 
 def showCals (c : Calibs) : String :=
